@@ -13,8 +13,10 @@ def correspondence(ctx):
     return dict(evaluations=0, distinct_nontrivial=0, rule='none (abstract ring identities; see oracle)', samples=[], disagreements=[], stats={})
 
 
-def check(rng):
+def check(rng, override=None):
     m = M.load()
+    if override:
+        m.CALIB.update(override)
     flat = m.flat()
     out, n = [], 0
     T = 40
@@ -80,6 +82,23 @@ def check(rng):
     n += 1
     if max(abs(ssd[k] - ssf[k]) for k in ('k', 'p', 'c', 's')) > 1e-7:
         C.push(out, dict(what='a doubly nested solved block gives a different steady state', input=dict(kind='nested', depth=2), signature=dict(op='depth2-steady_state')))
+    # dissolving solved blocks (evaluate at the supplied unknowns instead of solving): at every nesting depth the result is the flat evaluation
+    calib_off = dict(m.CALIB, k=1.35, p=0.3)                 # NOT a solution: residuals are non-zero, so a block that solves anyway is visible
+    flat_eval = flat.steady_state(calib_off)
+    mid2 = combine([inner, m.pricing], name='mid2')
+    deep2 = combine([mid2, m.extra], name='deep2')           # inner_solved at depth 2 below two plain combined blocks
+    deep3 = combine([combine([mid2], name='wrap3'), m.extra], name='deep3')
+    for label, model, names in (('depth1', nm, ['inner_solved']), ('depth2', deep2, ['inner_solved']), ('depth3', deep3, ['inner_solved']),
+                                ('solved-in-solved', deep, ['mid_solved', 'inner_solved'])):
+        n += 1
+        try:
+            got = model.steady_state(dict(calib_off), dissolve=names)
+            bad = [k for k in ('k', 'p', 'c', 's', 'res_k', 'res_p') if abs(got[k] - flat_eval[k]) > 1e-10]
+        except Exception as ex:
+            bad = [f'raised {type(ex).__name__}: {ex}']
+        if bad:
+            C.push(out, dict(what='steady_state with dissolve=[...] does not evaluate the model at the supplied unknowns (a nested solved block was not dissolved)', input=dict(kind='nested', dissolve=names, nesting=label),
+                             observed=bad[:4], signature=dict(op='dissolve', nesting=label)))
     Jd = deep.jacobian(ssd, Z, T=T)
     Gf = flat.solve_jacobian(ssf, ['k', 'p'], ['res_k', 'res_p'], Z, T=T)
     n += 1
@@ -91,6 +110,18 @@ def check(rng):
 def oracle(ctx, hints, broken):
     try:
         viol, n = check(ctx['rng'])
+        skipped = 0
+        if ctx['tier'] == 'thorough' or broken:
+            for _ in range(6):
+                ov = M.random_calib(ctx['rng'])
+                try:
+                    v2, n2 = check(ctx['rng'], ov)
+                except Exception:
+                    skipped += 1          # the generated model has no (reachable) steady state at this calibration
+                    continue
+                for v in v2:
+                    v['input'] = dict(v.get('input') or {}, calib_override=ov)
+                viol, n = viol + v2, n + n2
     except Exception as ex:
         import traceback
         viol, n = [dict(what=f'C11 oracle raised {type(ex).__name__}: {ex}', input=dict(kind='raise', trace=traceback.format_exc()[-700:]), signature=dict(op='raise'))], 1
@@ -104,5 +135,5 @@ def oracle(ctx, hints, broken):
 
 
 def replay(rp):
-    v = check(C.Rng(0))[0]
+    v = check(C.Rng(0), (rp.get('input') or {}).get('calib_override'))[0]
     return v[0] if v else None
